@@ -213,8 +213,9 @@ func probes(r *mon.Rand, routes []string, n int) []string {
 	set := map[string]bool{}
 	// values may contain text that looks like an escape once the URI layer has decoded the
 	// target (sent as %2541 etc., see wireOf): the router must hand it out as it stands
-	pv := []string{"a", "b", "ab", "abc", "q", "zz", "", "%41", "a+b", "%2e%2e"}
-	cv := []string{"a", "b", "ab", "q", "a/b", "ab/a", "", "q/", "%2Fx/a+b", "%2e%2e/q"}
+	// (... and text that still looks like an escape after one decoding: a value is decoded once)
+	pv := []string{"a", "b", "ab", "abc", "q", "zz", "", "%41", "a+b", "%2e%2e", "%2541"}
+	cv := []string{"a", "b", "ab", "q", "a/b", "ab/a", "", "q/", "%2Fx/a+b", "%2e%2e/q", "100%2541.txt", "%252e%252e/%252Fq"}
 	for k := 0; k < n; k++ {
 		base := routes[r.Intn(len(routes))]
 		var sb strings.Builder
